@@ -218,9 +218,6 @@ def run(ctx: Ctx):
     ctx.notes["definitions_total"] = len(keys)
     ctx.notes["definitions_visited"] = len(ctx.notes.get("definitions_visited", ()))
     ctx.notes["field_class_pairs_total"] = sum(len(gen.sweep_items(d)) for d in db.defs)
-    # once more in a process whose local time zone lies west of Greenwich (dates and times must not depend on it)
-    from ..common import sub_pass
-    sub_pass(ctx, [], "tz-west", {"TZ": "PST8PDT"})
 
 
 def replay(ctx: Ctx, case):
